@@ -3,8 +3,8 @@
    N <name> <cs>            | ok <name> <cs>  |  err empty | err toolong <len> | err illegal <cp>
    V <name> <cs> <reply>    | ok | mismatch | dberror | unexpected | badname
    A <outcomes>             | ok | b<tag> | t<tag> | m<tag> | n | panic | unknown
-   T <k0> <events>          | -            (end-to-end trace, judged by the acceptor)
-   U <name> <cs> <texts>    | -            (USE statement texts seen by the mock for a verified name)
+   E <seed> <q|t>           | <k0> <events> <calls> <texts> <stats>   (end-to-end scenario: the trace is
+                                judged by the acceptor, the USE texts by use_statement / parse_use)
 
    names are comma separated hexadecimal code points ("-" = empty string). *)
 
@@ -95,24 +95,32 @@ let verdict case impl =
       let spec_ok = List.exists is_ok outs && not (List.exists is_err outs) in
       if (obs = "ok") <> spec_ok then "viol spec_ok=" ^ string_of_bool spec_ok ^ " model=" ^ ms
       else "diff model=" ^ ms
-  | ["T"; k0; evs], _ ->
-    let tr = if evs = "-" then [] else List.map ev_of (split_on ';' evs) in
+  | ("E" :: _), [k0; evs; calls; texts; _stats] ->
+    (* 1. the trace is judged by the acceptor (C20_accept_sound: accepted => property) *)
+    let evl = if evs = "-" then [] else split_on ';' evs in
+    let tr = List.map ev_of evl in
     let k0 = oname_of k0 in
-    if accept_trace k0 tr then "ok"
-    else
+    if not (accept_trace k0 tr) then
       (match first_reject (acc_init k0) tr O with
-       | Some i -> Printf.sprintf "viol event=%d %s" (int_of_nat i) (List.nth (split_on ';' evs) (int_of_nat i))
-       | None -> "viol")
-  | ["U"; s; cs; texts], _ ->
-    (* every USE statement the mock received for this call is the model's text, and reads back *)
-    (match make_verified (name_of s) (bool_of cs) with
-     | Err _ -> if texts = "-" then "ok" else "viol statement-sent-for-invalid-name"
-     | Ok k ->
-       let expect = use_statement k in
-       let seen = if texts = "-" then [] else List.map name_of (split_on ';' texts) in
-       if List.for_all (fun t -> t = expect) seen then "ok"
-       else if List.for_all (fun t -> parse_use t = Some k) seen then "diff model=" ^ str_of_name expect
-       else "viol model=" ^ str_of_name expect)
+       | Some i -> Printf.sprintf "viol event=%d %s" (int_of_nat i) (List.nth evl (int_of_nat i))
+       | None -> "viol trace")
+    else
+      (* 2. every USE statement text the mock received is the model's text of a VALID name that was
+            handed to use_keyspace; nothing is ever sent for an invalid name *)
+      let callk = if calls = "-" then [] else
+          List.filter_map (fun c ->
+              match String.split_on_char ':' c with
+              | [nm; cs] -> (match make_verified (name_of nm) (bool_of cs) with Ok k -> Some k | Err _ -> None)
+              | _ -> failwith "bad call") (split_on ';' calls) in
+      let seen = if texts = "-" then [] else List.map name_of (split_on ';' texts) in
+      let expected = List.map use_statement callk in
+      (match List.find_opt (fun t -> not (List.mem t expected)) seen with
+       | None -> "ok"
+       | Some t ->
+         (match parse_use t with
+          | Some k when List.mem k callk -> "diff statement-text " ^ str_of_name t
+          | _ -> "viol statement-text " ^ str_of_name t))
+  | ("E" :: _), ("error" :: rest) -> "error " ^ String.concat " " rest
   | _ -> "error unknown-case"
 
 let () = run_lines verdict
